@@ -143,9 +143,12 @@ fn nesting_cases() -> &'static Vec<Case> {
                             continue;
                         }
                         let mut depth = 1usize;
-                        loop {
+                        'depths: loop {
+                          // the well-formed core first, then cores that make the innermost call fail to parse (a parser
+                          // that retries or backtracks on errors multiplies its work per level) and truncated closers
+                          for core in ["1", "", "1+", "1..2", ",", ")", "(", "\u{1}(8)"] {
                             // build f(g(f(g(... 1 ...),2),2),2)
-                            let mut s = String::from("1");
+                            let mut s = if core.starts_with('\u{1}') { format!("{}{}", f.name, &core[1..]) } else { String::from(core) };
                             for d in 0..depth {
                                 let name = if d % 2 == 0 { f.name } else { partner };
                                 s = match (f.arity, first, extra) {
@@ -159,11 +162,20 @@ fn nesting_cases() -> &'static Vec<Case> {
                                 };
                             }
                             if char_len(&s) > 256 {
-                                break;
+                                if core == "1" {
+                                    break 'depths;
+                                }
+                                continue;
                             }
                             if depth % 3 == 0 || depth < 4 {
+                                if core == "1" {
+                                    let cs: Vec<char> = s.chars().collect();
+                                    out.push(Case::new(ev, cs[..cs.len() - 1].iter().collect::<String>(), Val::default_for(ev)));
+                                    out.push(Case::new(ev, cs[..cs.len() - (depth + 1) / 2].iter().collect::<String>(), Val::default_for(ev)));
+                                }
                                 out.push(Case::new(ev, s, Val::default_for(ev)));
                             }
+                          }
                             depth += 1;
                         }
                     }
@@ -175,9 +187,15 @@ fn nesting_cases() -> &'static Vec<Case> {
                     continue;
                 }
                 for depth in [1usize, 2, 4, 8, 16, 24, 32, 48, 64, 84, 100, 127] {
-                    let s = format!("{}1{}", open.repeat(depth), close.repeat(depth));
-                    if char_len(&s) <= 256 {
-                        out.push(Case::new(ev, s, Val::default_for(ev)));
+                    for core in ["1", "", "1+", "1..2", ")", ","] {
+                        let s = format!("{}{}{}", open.repeat(depth), core, close.repeat(depth));
+                        if char_len(&s) <= 256 {
+                            if core == "1" && depth > 1 {
+                                let cs: Vec<char> = s.chars().collect();
+                                out.push(Case::new(ev, cs[..cs.len() - close.chars().count()].iter().collect::<String>(), Val::default_for(ev)));
+                            }
+                            out.push(Case::new(ev, s, Val::default_for(ev)));
+                        }
                     }
                 }
             }
@@ -224,7 +242,7 @@ impl Prop for C02Prop {
         "C02"
     }
     fn rule(&self) -> String {
-        "Cases are (evaluator, input, placeholder); the verif_hooks counter (one tick per lexer step, parser step/loop iteration, eval call and evaluator loop iteration) is armed with exactly 4096+256*len(input). Exhaustive: every looping construct (x!, x!!, ilog, w, lambert_w, gcd, lcm, ^, pow, root, shifts, aggregates of 1..40 args) x every argument tuple from the extreme pool (0,1,2,0.5,1.2,1.0000001,170,171,1e18,60- and 400-digit literals,-1,1/0,-1/0,0/0,@ with every placeholder) per evaluator; length-scaling families n=1..256; nesting families: every function nested in itself (min/max also alternating) in the first and in the last argument position and every bracket/operator shell, to every depth that fits 256 characters; then random trees over boundary operands, near-miss mutants and raw strings. non-trivial = at least one value-driven evaluator loop iteration was executed or len>=64; distinct by (evaluator,input,placeholder).".into()
+        "Cases are (evaluator, input, placeholder); the verif_hooks counter (one tick per lexer step, parser step/loop iteration, eval call and evaluator loop iteration) is armed with exactly 4096+256*len(input). Exhaustive: every looping construct (x!, x!!, ilog, w, lambert_w, gcd, lcm, ^, pow, root, shifts, aggregates of 1..40 args) x every argument tuple from the extreme pool (0,1,2,0.5,1.2,1.0000001,170,171,1e18,60- and 400-digit literals,-1,1/0,-1/0,0/0,@ with every placeholder) per evaluator; length-scaling families n=1..256; nesting families: every function nested in itself (min/max also alternating) in the first and in the last argument position and every bracket/operator shell, to every depth that fits 256 characters, each also with a core that fails to parse (empty, dangling operator, bad literal, stray comma/bracket, arity error) and with truncated closers; then random trees over boundary operands, near-miss mutants and raw strings. non-trivial = at least one value-driven evaluator loop iteration was executed or len>=64; distinct by (evaluator,input,placeholder).".into()
     }
     fn assumptions(&self) -> Vec<String> {
         vec![
